@@ -50,7 +50,7 @@ func init() {
 		ID:    "C19",
 		Level: "model_checking",
 		Rule: "E4: (schedules) every unordered pair of the function alphabet (one entry per exported query/codec function of bitmap, bmtree, bitstr, bitword, sigbits + TailBitmap.Get/Get1) as a 2-thread program on SHARED inputs, all schedules with ≤P preemptions, and every triple over a 16-entry sub-alphabet with ≤P-1 preemptions; scheduling points are inserted automatically (vinstr, from the current working tree) before every statement that mentions a package-level variable, a method receiver or an alias of either; oracle: per-thread results equal the sequential results, exactly one outcome per program, package state unchanged; plus a COLD-START exploration in which every schedule of every same-function pair (thorough: and of every pair of the sub-alphabet) runs in a fresh process with inputs built by reference code, so that first-use windows of lazily initialised state are inside the schedules. " +
-			"(footprint, no scheduling) every alphabet entry × every variant of its parameter grid × 4 input sets with all slice/string arguments in read-only mmap'ed memory (any store faults), package-state deep hash unchanged by every call after a full warm-up pass, results identical in forward and reverse order and identical between the plain and the instrumented binary; every returned value is kept (the value itself, not a copy) and rendered again after the whole pass, after one element was appended to every returned slice, and - on fresh arguments - after every argument buffer was overwritten as a caller reusing its buffers does (a result must not be a view of argument memory); and every element of every returned slice is overwritten in place, after which every call is made once more on the same arguments and must give what it gave before (a result must not be memory the library reads again: a table, a cache, an argument); and every call once more with every argument in a mapping of its own that ends in an inaccessible page - a string's last byte, a slice's last element of capacity is the last accessible byte - so that a read of even one byte beyond an argument faults. (race pass, supplementary) the same bodies free-running under -race in a fresh process. " +
+			"(footprint, no scheduling) every alphabet entry × every variant of its parameter grid × 4 input sets with all slice/string arguments in read-only mmap'ed memory (any store faults), package-state deep hash unchanged by every call after a full warm-up pass, results identical in forward and reverse order and identical between the plain and the instrumented binary; every returned value is kept (the value itself, not a copy) and rendered again after the whole pass, after one element was appended to every returned slice, and - on fresh arguments - after every argument buffer was overwritten as a caller reusing its buffers does (a result must not be a view of argument memory); and every element of every returned slice is overwritten in place, (first with a tag of its own per returned value, which each must still hold after all the others were filled: results must not share memory with each other), after which every call is made once more on the same arguments and must give what it gave before (a result must not be memory the library reads again: a table, a cache, an argument); and every call once more with every argument in a mapping of its own that ends in an inaccessible page - a string's last byte, a slice's last element of capacity is the last accessible byte - so that a read of even one byte beyond an argument faults, and once more with the inaccessible page right BEFORE every argument. (race pass, supplementary) the same bodies free-running under -race in a fresh process. " +
 			"states = distinct schedules (choice-tree nodes), transitions = scheduling points executed; non-trivial schedules are those with at least one preemption.",
 		Assumptions: []string{
 			"preemption only at instrumented statements, at statement granularity, sequentially consistent memory; unsynchronised accesses elsewhere are left to the exact argument footprint and the (sampling) race pass",
@@ -314,6 +314,9 @@ func (a *arena) free() {
 type guardAlloc struct {
 	maps  [][]byte
 	sizes []int
+	// before: the inaccessible page lies BEFORE the argument, which starts at a page boundary
+	// (a read of even one byte in front of an argument faults)
+	before bool
 }
 
 func (g *guardAlloc) take(n int) unsafe.Pointer {
@@ -321,6 +324,18 @@ func (g *guardAlloc) take(n int) unsafe.Pointer {
 	size := (n + page - 1) / page * page
 	if size == 0 {
 		size = page
+	}
+	if g.before {
+		m, err := syscall.Mmap(-1, 0, size+page, syscall.PROT_READ|syscall.PROT_WRITE, syscall.MAP_ANON|syscall.MAP_PRIVATE)
+		if err != nil {
+			panic("harness: mmap: " + err.Error())
+		}
+		if err := syscall.Mprotect(m[:page], syscall.PROT_NONE); err != nil {
+			panic("harness: mprotect: " + err.Error())
+		}
+		g.maps = append(g.maps, m)
+		g.sizes = append(g.sizes, size)
+		return unsafe.Pointer(&m[page])
 	}
 	m, err := syscall.Mmap(-1, 0, size+page, syscall.PROT_READ|syscall.PROT_WRITE, syscall.MAP_ANON|syscall.MAP_PRIVATE)
 	if err != nil {
@@ -381,7 +396,11 @@ func (g *guardAlloc) strs(s []string) []string {
 }
 func (g *guardAlloc) protect() {
 	for i, m := range g.maps {
-		if err := syscall.Mprotect(m[:g.sizes[i]], syscall.PROT_READ); err != nil {
+		acc := m[:g.sizes[i]]
+		if g.before {
+			acc = m[len(m)-g.sizes[i]:]
+		}
+		if err := syscall.Mprotect(acc, syscall.PROT_READ); err != nil {
 			panic("harness: mprotect: " + err.Error())
 		}
 	}
@@ -763,6 +782,65 @@ func c19OverwritePoke(v reflect.Value, depth int) (n int) {
 	return n
 }
 
+// c19TagFill writes tag into every element of every slice reachable from a returned
+// value; c19TagCheck tells whether every such element still holds it. Filling every
+// returned value with a tag of its own and checking all of them afterwards shows
+// results that share memory WITH EACH OTHER (one buffer handed out twice).
+func c19TagFill(v reflect.Value, tag int64, depth int) {
+	if !v.IsValid() || depth > 3 {
+		return
+	}
+	switch v.Kind() {
+	case reflect.Interface:
+		c19TagFill(v.Elem(), tag, depth+1)
+	case reflect.Slice:
+		for i := 0; i < v.Len(); i++ {
+			e := v.Index(i)
+			switch e.Kind() {
+			case reflect.Slice, reflect.Interface:
+				c19TagFill(e, tag, depth+1)
+			case reflect.Uint8, reflect.Uint16, reflect.Uint32, reflect.Uint64, reflect.Uint:
+				if e.CanSet() {
+					e.SetUint(uint64(tag))
+				}
+			case reflect.Int8, reflect.Int16, reflect.Int32, reflect.Int64, reflect.Int:
+				if e.CanSet() {
+					e.SetInt(tag)
+				}
+			}
+		}
+	}
+}
+
+func c19TagCheck(v reflect.Value, tag int64, depth int) bool {
+	if !v.IsValid() || depth > 3 {
+		return true
+	}
+	switch v.Kind() {
+	case reflect.Interface:
+		return c19TagCheck(v.Elem(), tag, depth+1)
+	case reflect.Slice:
+		for i := 0; i < v.Len(); i++ {
+			e := v.Index(i)
+			switch e.Kind() {
+			case reflect.Slice, reflect.Interface:
+				if !c19TagCheck(e, tag, depth+1) {
+					return false
+				}
+			case reflect.Uint8, reflect.Uint16, reflect.Uint32, reflect.Uint64, reflect.Uint:
+				if e.CanSet() && e.Uint() != uint64(tag) {
+					return false
+				}
+			case reflect.Int8, reflect.Int16, reflect.Int32, reflect.Int64, reflect.Int:
+				if e.CanSet() && e.Int() != tag {
+					return false
+				}
+			}
+		}
+	}
+	return true
+}
+
 // c19ResultPoke: a forward pass whose results are rendered, then overwritten in place
 // by the caller, then the same pass once more on the same arguments. The second
 // pass must give what the first gave: a result must not be (a view of) memory the
@@ -777,6 +855,21 @@ func c19ResultPoke(alpha []c19Call, in *c19In) (bad []c19Retained, poked int) {
 		vals[ci] = make([]interface{}, n)
 		for k := 0; k < n; k++ {
 			vals[ci][k], first[ci][k] = c19SafeV(&alpha[ci], in, k)
+		}
+	}
+	// every returned value gets a tag of its own (1..120: fits every element type) ...
+	tagOf := func(ci, k int) int64 { return int64((ci*37+k*11)%120 + 1) }
+	for ci := range alpha {
+		for k, v := range vals[ci] {
+			c19TagFill(reflect.ValueOf(v), tagOf(ci, k), 0)
+		}
+	}
+	// ... and must still hold it after all the others were filled: two results that are one buffer do not
+	for ci := range alpha {
+		for k, v := range vals[ci] {
+			if !c19TagCheck(reflect.ValueOf(v), tagOf(ci, k), 0) {
+				bad = append(bad, c19Retained{ci, k, first[ci][k], "this result shares memory with another returned value: filled with its own tag, it reads " + clipS(c19Str(v)) + " after the other results were filled with theirs"})
+			}
 		}
 	}
 	for ci := range alpha {
@@ -958,25 +1051,31 @@ func c19Footprint(c *mc.Ctx) (digest string) {
 		}
 		// (5) no access beyond an argument: every argument in a mapping of its own that ends in an
 		// inaccessible page (and is read-only): reading one byte past a key or a bitmap faults
-		ga := &guardAlloc{}
-		gin := c19Build(set, ga)
-		ga.protect()
-		for ci := range alpha {
-			for k := range fwd[ci] {
-				if r := c19Safe(&alpha[ci], gin, k); r != fwd[ci][k] {
-					class := "guardpage"
-					if strings.Contains(r, "fault") || strings.Contains(r, "invalid memory address") {
-						class = "guardpage/access-beyond-argument"
-					}
-					c.Fail(8<<50|int64(set)<<40|int64(ci)<<20|int64(k), "guardpage", class, c19Case{Call: alpha[ci].Name, Variant: k, Input: set}, r, fwd[ci][k])
-				}
-				c.Count(1, 1)
-				c.Expect(1)
-				c.Add("calls_on_guard_page_arguments", 1)
+		for _, before := range []bool{false, true} {
+			ga := &guardAlloc{before: before}
+			gin := c19Build(set, ga)
+			ga.protect()
+			note := "inaccessible page right after every argument"
+			if before {
+				note = "inaccessible page right before every argument"
 			}
+			for ci := range alpha {
+				for k := range fwd[ci] {
+					if r := c19Safe(&alpha[ci], gin, k); r != fwd[ci][k] {
+						class := "guardpage"
+						if strings.Contains(r, "fault") || strings.Contains(r, "invalid memory address") {
+							class = "guardpage/access-beyond-argument"
+						}
+						c.Fail(8<<50|int64(set)<<40|int64(ci)<<20|int64(k)<<1|int64(len(note)&1), "guardpage", class, c19Case{Call: alpha[ci].Name, Variant: k, Input: set, Note: note}, r, fwd[ci][k])
+					}
+					c.Count(1, 1)
+					c.Expect(1)
+					c.Add("calls_on_guard_page_arguments", 1)
+				}
+			}
+			c.Add("guard_page_mappings", int64(len(ga.maps)))
+			ga.free()
 		}
-		c.Add("guard_page_mappings", int64(len(ga.maps)))
-		ga.free()
 		// (4) no returned slice is memory the library reads again: overwrite every returned slice in
 		// place (the caller owns it), then every call once more on the same arguments
 		ha3 := newHeapAlloc()
@@ -1259,7 +1358,7 @@ func c19Judge(kind string, raw json.RawMessage) (string, string, error) {
 		want := c19Forward(alpha, c19Build(cs.Input, heapAlloc{}))[ci][cs.Variant]
 		debug.SetPanicOnFault(true)
 		defer debug.SetPanicOnFault(false)
-		ga := &guardAlloc{}
+		ga := &guardAlloc{before: strings.Contains(cs.Note, "before")}
 		gin := c19Build(cs.Input, ga)
 		ga.protect()
 		defer ga.free()
